@@ -1,7 +1,7 @@
 """C14 — JSON-RPC framing and request completion (DESIGN §4 C14)."""
 import glob
 from tbxlint.facts import extract, AnalysisBroken, MODULES
-from tbxlint import locks, q, exc, rd, reent
+from tbxlint import tmon, locks, q, exc, rd, reent
 
 NS = 'tbox::jsonrpc::'
 PROTOS = ['HeaderStreamProto', 'RawStreamProto', 'PacketProto']
@@ -345,4 +345,5 @@ def run(ctx):
     ctx.guard(r5_r6, ctx, prog)
     ctx.guard(r7, ctx, prog)
     ctx.guard(r8, ctx, prog)
+    ctx.guard(tmon.run, ctx, prog, 'C14.R9')
     return prog
